@@ -230,3 +230,20 @@ PROPS["C06"] = {
     "design_ref": "DESIGN.md section 6 C06",
 }
 
+PROPS["C07"] = {
+    "modules": ["OxiaVerif.Props.C07"],
+    "facts": ["processWriteSingleBatchCommit", "versionIdPersistedAfterApply", "leaderReplayStartsAfterDbCommitOffset", "followerApplyStartsAfterCommitOffset",
+              "leaderReplayUsesWrapperCallbackAndEntryArgs", "followerApplyUsesWrapperCallbackAndEntryArgs", "followerApplyResetsPooledEntry",
+              "pebbleRunsWithoutItsOwnWal", "walReaderServesOnlySyncedEntries"],
+    "trusted_base": [KERNEL, EXTRACT, CORR, CLUSTER, DBTRUST,
+                     "Pebble: a batch commit is atomic and a flush makes whole batches durable (so the database after a crash is the state after a whole number of entries); the crash itself is simulated by putting the database directory back to its on-disk content (no Pebble WAL, so the memtable is what is lost) while keeping the shard's WAL",
+                     "the WAL delivers contiguous offsets in order (C09)"],
+    "assumptions": ["the crash point is abstracted to 'the database holds a prefix of the log' (every prefix length is covered by the theorem; the harness reaches the prefixes that end at a flush)",
+                    "crashes in the middle of a snapshot installation are not covered here (finding D-39, see C05)",
+                    "every entry of the log can be applied (D-5 excluded by the generator)"],
+    "rule": "the cluster scripts of C06 with crashes added: at any point a follower or the leader (then followed by an election) loses its unflushed database state and comes back from the commit offset stored in the database; afterwards more entries are written and every replica is compared with the leader and with M-Db at the same commit offset. Apply rounds of several entries and leader replays of several entries (with secondary indexes, sessions, sequence keys) occur because the database falls back to its last flush.",
+    "level_text": "Machine-checked proof (Lean 4) on M-Db and a contiguous log: after every successful write the stored commit offset is the entry's offset (C07_commit_offset_is_last_applied); from the state after ANY prefix of the log - i.e. for every crash point - the replay (read the commit offset c from the database, apply the entries with offset > c in log order) applies exactly the remaining entries, each once, in order, and ends in the state of the whole log (C07_replay_exactly_once_in_order); the commit offset of the crashed database is the offset of a log entry, never ahead of the log (C07_commit_not_ahead_of_log); further crashes during or after the replay compose (C07_repeated_crashes). The code's replay loops are tied to this definition by nine regenerated facts and by differential runs with simulated crashes on a real in-process cluster.",
+    "level_note": "Trusted: Lean kernel; extractor rules (single batch, replay start offsets, call sites, reader bound, DisableWAL); Pebble batch/flush atomicity; cluster harness and its crash simulation. Not covered: crash during snapshot install (D-39).",
+    "technique": "Lean 4 proof (prefix invariant + replay = remaining suffix, for every prefix length) + regenerated facts + differential correspondence with simulated crashes",
+    "design_ref": "DESIGN.md section 6 C07",
+}
